@@ -1,12 +1,15 @@
 #!/bin/bash
-# tools/try_mutant.sh <patch.diff> <property> [<property>...]  - apply a seeded change to /repo, run the quick checks, undo it
+# tools/try_mutant.sh <patch.diff> <property> [<property>...]
+# Applies a seeded change to a PRIVATE worktree of /repo (never to /repo itself), points the checks at it through VERIF_REPO,
+# runs the quick checks and removes the worktree.  (The registered commands always run against /repo; VERIF_REPO is a test hook.)
 patch=$1; shift
-cd /repo || exit 2
-if [ -n "$(git status --porcelain)" ]; then echo "repo not clean"; exit 2; fi
-git apply "$patch" || { echo "patch does not apply"; exit 2; }
-trap 'git -C /repo checkout -- . ' EXIT
+wt=/tmp/repo-mut-$$
+git -C /repo worktree add -q --detach "$wt" HEAD || exit 2
+cp /repo/sim/Cargo.lock "$wt/sim/" 2>/dev/null
+trap 'git -C /repo worktree remove --force "$wt" 2>/dev/null' EXIT
+git -C "$wt" apply "$patch" || { echo "patch does not apply"; exit 2; }
 cd /verif
 for p in "$@"; do
-  ./check "$p" quick > /tmp/mut-$p.out 2>&1; rc=$?
-  echo "== $p rc=$rc"; grep -E "^VIOLATION|^KNOWN-FINDING|^INCONCLUSIVE|^\[" /tmp/mut-$p.out | cut -c1-300
+  VERIF_REPO="$wt" VERIF_SCRATCH=/tmp/elvis-verif-mut$$ ./check "$p" quick > /tmp/mut-$p-$$.out 2>&1; rc=$?
+  echo "== $p rc=$rc"; grep -E "^VIOLATION|^KNOWN-FINDING|^INCONCLUSIVE|^\[" /tmp/mut-$p-$$.out | cut -c1-300 | head -12
 done
